@@ -158,7 +158,7 @@ theorem lv4ReadG_cache (rd : Nat → Nat → Nat → Except Err Bytes) (bsOf : N
 
 theorem levelBytes_length (P : Bytes) (t : Tree) (hwf : TreeWF P t) (idx : Nat) :
     (levelBytes P t idx).length = (t.level idx).size := by
-  unfold levelBytes
+  unfold levelBytes levelFrom
   cases hx : (if 3 ≤ idx then t.external else none) with
   | some p =>
     obtain ⟨eo, es⟩ := p
